@@ -17,6 +17,8 @@ pub enum Op {
     /// (slot, 0 = read side / 1 = write side): which limit does a hooked call apply now?
     Io(usize, usize),
     Close(usize),
+    /// hooked close whose kernel call releases the descriptor but reports -1/EINTR (as Linux may)
+    CloseEintr(usize),
     Open(usize),
 }
 
@@ -100,6 +102,7 @@ impl Op {
             Op::Set(s, o, v) => json!(format!("set(slot{s},{},{}s{}us)", ["SO_RCVTIMEO", "SO_SNDTIMEO"][o], VALS[v].0, VALS[v].1)),
             Op::Io(s, o) => json!(format!("io(slot{s},{})", ["read", "write"][o])),
             Op::Close(s) => json!(format!("close(slot{s})")),
+            Op::CloseEintr(s) => json!(format!("close-reporting-EINTR(slot{s})")),
             Op::Open(s) => json!(format!("open(slot{s})")),
         }
     }
@@ -119,6 +122,9 @@ impl Op {
         if let Some(r) = s.strip_prefix("close(") {
             return Some(Op::Close(slot(r)?));
         }
+        if let Some(r) = s.strip_prefix("close-reporting-EINTR(") {
+            return Some(Op::CloseEintr(slot(r)?));
+        }
         if let Some(r) = s.strip_prefix("open(") {
             return Some(Op::Open(slot(r)?));
         }
@@ -130,7 +136,7 @@ fn enabled(hist: &[Op], nvals: usize) -> Vec<Op> {
     let mut open = [true, true];
     for o in hist {
         match o {
-            Op::Close(s) => open[*s] = false,
+            Op::Close(s) | Op::CloseEintr(s) => open[*s] = false,
             Op::Open(s) => open[*s] = true,
             _ => {}
         }
@@ -147,6 +153,7 @@ fn enabled(hist: &[Op], nvals: usize) -> Vec<Op> {
                 v.push(Op::Io(s, o));
             }
             v.push(Op::Close(s));
+            v.push(Op::CloseEintr(s));
         } else {
             v.push(Op::Open(s));
         }
@@ -223,6 +230,16 @@ fn run_history(hist: &[Op], base: i32) -> Result<(), (String, String, String)> {
                 let _ = sc::close(None, base + s as i32);
                 open[s] = false;
             }
+            Op::CloseEintr(s) => {
+                extern "C" fn k_close(fd: i32) -> i32 {
+                    unsafe { libc::close(fd) };
+                    sc::set_errno(libc::EINTR);
+                    -1
+                }
+                let f: extern "C" fn(i32) -> i32 = k_close;
+                let _ = sc::close(Some(&f), base + s as i32);
+                open[s] = false;
+            }
             Op::Open(s) => {
                 unsafe { fresh_socket_at(base + s as i32) };
                 open[s] = true;
@@ -291,7 +308,7 @@ pub fn run(tier: &str, rep: &mut Report) {
     for (depth, nvals) in &cfgs {
         cases.push(Case { prefix: vec![], depth: 0, nvals: *nvals });
         for op in enabled(&[], *nvals) {
-            if !matches!(op, Op::Set(0, ..) | Op::Io(0, _) | Op::Close(0)) {
+            if !matches!(op, Op::Set(0, ..) | Op::Io(0, _) | Op::Close(0) | Op::CloseEintr(0)) {
                 continue;
             }
             cases.push(Case { prefix: vec![op], depth: 1, nvals: *nvals });
@@ -303,7 +320,7 @@ pub fn run(tier: &str, rep: &mut Report) {
     rep.bounds = json!({"slots": 2, "depth_and_values": cfgs.iter().map(|(d, n)| json!({"depth": d, "values": VALS.iter().take(*n).map(|(s, u)| format!("{s}s{u}us")).collect::<Vec<_>>()})).collect::<Vec<_>>(),
         "symmetry": "the first operation goes to slot 0 (the slots are interchangeable)",
         "rejected_value": "0s2000000us is refused by the kernel with EDOM and must leave the applied limit alone",
-        "ops": ["set(slot, SO_RCVTIMEO|SO_SNDTIMEO, value)", "io(slot, read|write)", "close(slot) through the hooked close", "open(slot) on the same descriptor number"],
+        "ops": ["set(slot, SO_RCVTIMEO|SO_SNDTIMEO, value)", "io(slot, read|write)", "close(slot) through the hooked close", "the same with a kernel close that releases the descriptor but reports EINTR", "open(slot) on the same descriptor number"],
         "io_step": "compares send_time_limit/recv_time_limit with the option value AND measures, under a scripted kernel that keeps answering would-block, how long read/recv/readv resp. write/send/writev really wait",
         "dedup": "none: every history is executed"});
     rep.require(&["histories_with_descriptor_reuse"]);
